@@ -31,7 +31,7 @@ def streams(tier, seed):
     ipa_exh = list(seq.ipa_exhaustive(3 if quick else 4))
     if quick:
         # all strings of length <= 3 over the 17 representatives, plus a seeded sample of length 4
-        ipa_exh += list(seq.ipa_custom_random(rng, 1500, 4, 4))
+        ipa_exh += list(seq.ipa_custom_random(rng, 1000, 4, 4))
     yield "corpus", corpus_cases(), 500
     yield "ipa_exhaustive", ipa_exh, 1500
     yield "ipa_custom_random", list(seq.ipa_custom_random(rng, 1500 if quick else 20000, 5, 12)), 1500
@@ -48,7 +48,10 @@ def streams(tier, seed):
     # histories of calls in ONE process: all segmentations of a string in varied order, then random words
     yield "prosseq_exhaustive", list(seq.prosseq_exhaustive(rng, "aits", 3, 4 if quick else None)) + \
         ([] if quick else list(seq.prosseq_exhaustive(rng, "ait", 4, 6))), 500
-    yield "prosseq_random", list(seq.prosseq_random(rng, 600 if quick else 12000, 7)), 500
+    yield "prosseq_random", list(seq.prosseq_random(rng, 400 if quick else 12000, 7)), 500
+    # the composed chain: string -> tokens -> classes -> aligned classes -> class2tokens (+ prosody)
+    yield "pipe_words", list(seq.pipe_words()), 500
+    yield "pipe_random", list(seq.pipe_random(rng, 700 if quick else 20000, 12)), 500
     yield "c2t_exhaustive", list(seq.c2t_exhaustive(3, 4 if quick else 5)), 2500
     yield "c2t_random", list(seq.c2t_random(rng, 1500 if quick else 30000, 10)), 2000
 
@@ -82,13 +85,15 @@ def main(tier, seed, prop=PROP, prop_bits=PROP_BITS):
         "pros = (sonority list, _output mode, prosodic_string, prosodic_weights); prostok = (token list, art model, "
         "sonority profile, prosodic string); prosseq = a history of calls in one process (tokens2class, sonority, "
         "prosodic_string, prosodic_weights on several segmentations of the same characters and cldf settings, order "
-        "varied; every segmentation of every string of length 2-3 over 4 characters); c2t = (tokens, aligned class string, prefix/suffix, class2tokens global "
+        "varied; pipe = the composed chain string -> ipa2tokens -> tokens2class (every shipped model) -> gaps "
+        "inserted by the harness -> class2tokens, plus prosodic_string / prosodic_weights of the tokens, every stage fed "
+        "with the implementation's own previous output; every segmentation of every string of length 2-3 over 4 characters); c2t = (tokens, aligned class string, prefix/suffix, class2tokens global "
         "and local).  Exhaustive small scopes: all strings of length <= %s over 17 representative characters (one per "
         "character class and overlap of classes), all tokens of length <= %s over 7 characters against 3 small "
         "converters, all sonority lists over 0..9 of length <= %s (and over {0,1,2,3,7,8,9} up to length %s), all class strings over {K,-,X} of length <= %s "
         "against <= 3 tokens; the rest seeded random (all %d loadable shipped models).  Non-trivial: ipa = some "
         "token has more than one character; t2c = a token is resolved through a fallback branch and the call returns; "
-        "pros/prostok = length >= 2 and the call returns; prosseq = at least two different segmentations of the same "
+        "pros/prostok = length >= 2 and the call returns; pipe = every stage returns, a token has several characters and a gap is re-inserted; prosseq = at least two different segmentations of the same "
         "characters and every call returns; c2t = at least one gap inserted into a non-empty token list; "
         "distinct by full input." % ((("3 (+ sample of 4)", 3, 3, 4, 4) if tier == "quick" else (4, 4, 4, 6, 5)) +
                                      (len(seq._state.get("models", {})),)))
